@@ -1,5 +1,6 @@
 /- helper lemmas for Props/C08.lean -/
 import ForsysModel.Model.BigEdges
+import ForsysModel.Proofs.C09
 namespace Forsys
 variable {α : Type}
 
@@ -455,6 +456,197 @@ theorem bigEdgeOwnCells_mid (m : Mesh) (e : List Id) (hlen : e.length ≠ 2) (hi
   rw [h2]
   simp [List.getD_eq_getElem?_getD, hi]
 
+end Mesh
+
+/-! ### `are_neighbours` of `Frame.__post_init__` and the own_cells of two-point interfaces -/
+
+theorem mem_cyclicPairs_iff (l : List α) (x y : α) :
+    (x, y) ∈ cyclicPairs l ↔ ∃ i, l[i]? = some x ∧ l[(i + 1) % l.length]? = some y := by
+  cases l with
+  | nil => simp [cyclicPairs]
+  | cons a t =>
+    simp only [cyclicPairs, List.mem_iff_getElem?, List.getElem?_zip_eq_some, List.length_cons]
+    constructor
+    · rintro ⟨i, h1, h2⟩
+      refine ⟨i, h1, ?_⟩
+      have hi : i < t.length + 1 := by
+        have := (List.getElem?_eq_some_iff.1 h1).1; simpa using this
+      by_cases hlt : i < t.length
+      · rw [Nat.mod_eq_of_lt (by omega)]
+        rw [List.getElem?_append_left hlt] at h2
+        simpa using h2
+      · have : i = t.length := by omega
+        subst this
+        simp at h2
+        simp [h2]
+    · rintro ⟨i, h1, h2⟩
+      refine ⟨i, h1, ?_⟩
+      have hi : i < t.length + 1 := by
+        have := (List.getElem?_eq_some_iff.1 h1).1; simpa using this
+      by_cases hlt : i < t.length
+      · rw [Nat.mod_eq_of_lt (by omega)] at h2
+        rw [List.getElem?_append_left hlt]
+        simpa using h2
+      · have : i = t.length := by omega
+        subst this
+        simp at h2
+        simp [h2]
+theorem pred_succ_mod (pos n : Nat) (h : pos < n) : ((pos + n - 1) % n + 1) % n = pos := by
+  cases pos with
+  | zero =>
+    have : (0 + n - 1) % n = n - 1 := by rw [Nat.zero_add]; exact Nat.mod_eq_of_lt (by omega)
+    rw [this, show n - 1 + 1 = n by omega, Nat.mod_self]
+  | succ p =>
+    have : (p + 1 + n - 1) % n = p := by
+      rw [show p + 1 + n - 1 = p + n by omega, Nat.add_mod_right]; exact Nat.mod_eq_of_lt (by omega)
+    rw [this]; exact Nat.mod_eq_of_lt h
+
+theorem succ_pred_mod (j n : Nat) (h : j < n) : ((j + 1) % n + n - 1) % n = j := by
+  by_cases hj : j + 1 < n
+  · rw [Nat.mod_eq_of_lt hj, show j + 1 + n - 1 = j + n by omega, Nat.add_mod_right]
+    exact Nat.mod_eq_of_lt h
+  · have : j + 1 = n := by omega
+    rw [this, Nat.mod_self, Nat.zero_add]
+    rw [Nat.mod_eq_of_lt (by omega)]; omega
+
+/-- what `are_neighbours` finds is a cyclic consecutive pair of the cycle, in one of the two directions -/
+theorem cyclicNeighbours_imp (ids : List Id) (a b : Id) (h : cyclicNeighbours ids a b = true) :
+    (a, b) ∈ cyclicPairs ids ∨ (b, a) ∈ cyclicPairs ids := by
+  unfold cyclicNeighbours at h
+  split at h
+  · simp at h
+  · rename_i pos hpos
+    have ha := indexOf?_some_getElem? a ids pos hpos
+    have hlt : pos < ids.length := (List.getElem?_eq_some_iff.1 ha).1
+    have hn : 0 < ids.length := by omega
+    simp only [Bool.or_eq_true, beq_iff_eq] at h
+    rcases h with h | h
+    · right
+      rw [mem_cyclicPairs_iff]
+      refine ⟨(pos + ids.length - 1) % ids.length, ?_, ?_⟩
+      · have hl : (pos + ids.length - 1) % ids.length < ids.length := Nat.mod_lt _ hn
+        rw [h, List.getD_eq_getElem?_getD, List.getElem?_eq_getElem hl]; simp
+      · rw [pred_succ_mod _ _ hlt]; exact ha
+    · left
+      rw [mem_cyclicPairs_iff]
+      refine ⟨pos, ha, ?_⟩
+      have hl : (pos + 1) % ids.length < ids.length := Nat.mod_lt _ hn
+      rw [h, List.getD_eq_getElem?_getD, List.getElem?_eq_getElem hl]; simp
+
+/-- in a cycle without repeated vertex `are_neighbours` is exactly "cyclic consecutive pair in one of the two directions" -/
+theorem cyclicNeighbours_iff (ids : List Id) (hn : ids.Nodup) (a b : Id) :
+    cyclicNeighbours ids a b = true ↔ ((a, b) ∈ cyclicPairs ids ∨ (b, a) ∈ cyclicPairs ids) := by
+  refine ⟨cyclicNeighbours_imp ids a b, ?_⟩
+  rintro (h | h)
+  · rw [mem_cyclicPairs_iff] at h
+    obtain ⟨i, h1, h2⟩ := h
+    have hi : i < ids.length := (List.getElem?_eq_some_iff.1 h1).1
+    have hidx : indexOf? a ids = some i := by
+      have := indexOf?_getElem ids hn i hi
+      rw [List.getElem?_eq_getElem hi] at h1
+      simp at h1; rwa [h1] at this
+    unfold cyclicNeighbours
+    rw [hidx]
+    simp only [Bool.or_eq_true, beq_iff_eq]
+    right
+    rw [List.getD_eq_getElem?_getD, h2]; rfl
+  · rw [mem_cyclicPairs_iff] at h
+    obtain ⟨j, h1, h2⟩ := h
+    have hj : j < ids.length := (List.getElem?_eq_some_iff.1 h1).1
+    have hi : (j + 1) % ids.length < ids.length := Nat.mod_lt _ (by omega)
+    have hidx : indexOf? a ids = some ((j + 1) % ids.length) := by
+      have := indexOf?_getElem ids hn _ hi
+      rw [List.getElem?_eq_getElem hi] at h2
+      simp at h2; rwa [h2] at this
+    unfold cyclicNeighbours
+    rw [hidx]
+    simp only [Bool.or_eq_true, beq_iff_eq]
+    left
+    rw [succ_pred_mod _ _ hj, List.getD_eq_getElem?_getD, h1]; rfl
+theorem mem_cyclicPairs_left (l : List α) (x y : α) (h : (x, y) ∈ cyclicPairs l) : x ∈ l := by
+  rw [mem_cyclicPairs_iff] at h
+  obtain ⟨i, h1, _⟩ := h
+  exact List.mem_of_getElem? h1
+
+theorem mem_cyclicPairs_right (l : List α) (x y : α) (h : (x, y) ∈ cyclicPairs l) : y ∈ l := by
+  rw [mem_cyclicPairs_iff] at h
+  obtain ⟨i, _, h2⟩ := h
+  exact List.mem_of_getElem? h2
+
+namespace Mesh
+
+/-- the cells (keys of the cell dictionary, in its order) in whose vertex cycle `a` and `b` are consecutive
+    (closing pair included, either direction): the cells along the mesh edge `{a, b}` -/
+def edgeCells (m : Mesh) (a b : Id) : List Id :=
+  (m.cells.filter fun p =>
+    (cyclicPairs p.2.verts).contains (a, b) || (cyclicPairs p.2.verts).contains (b, a)).map (·.1)
+
+theorem bigEdgeOwnCells_pair (m : Mesh) (a b : Id) :
+    m.bigEdgeOwnCells [a, b] = (listInter (m.ownCells a) (m.ownCells b)).filter (m.neighboursInCell a b) := rfl
+
+theorem ownCells_nodup_of_consistent (m : Mesh) (h : m.Consistent = true) (a : Id) : (m.ownCells a).Nodup := by
+  have hc := ((consistent_iff m).1 h).2.2.1
+  unfold ownCells vertex?
+  cases hv : alGet? a m.vertices with
+  | none => simp
+  | some v => exact (hc (a, v) (alGet?_some_mem hv)).2.2
+
+/-- in a consistent mesh a vertex of a cell cycle lists that cell -/
+theorem mem_ownCells_of_mem_verts (m : Mesh) (h : m.Consistent = true) (c : Id) (cl : Cell)
+    (hc : (c, cl) ∈ m.cells) (a : Id) (ha : a ∈ cl.verts) : c ∈ m.ownCells a := by
+  obtain ⟨hk, _, hoc, hr, _, _⟩ := (consistent_iff m).1 h
+  have hav : a ∈ m.vertices.map (·.1) := (hr.2 (c, cl) hc).2 a ha
+  obtain ⟨p, hp, hpa⟩ := List.mem_map.1 hav
+  obtain ⟨k, v⟩ := p
+  simp only at hpa; subst hpa
+  have hget : alGet? k m.vertices = some v := alGet?_of_mem hk.2.2.2.1 hp
+  have hid : k = v.id := hk.1 (k, v) hp
+  have hcid : c = cl.id := hk.2.2.1 (c, cl) hc
+  have := (hoc (k, v) hp).2.1 (c, cl) hc (by simpa [← hid] using ha)
+  simp only [ownCells, vertex?, hget, Option.map_some, Option.getD_some]
+  rw [hcid]; exact this
+
+theorem mem_edgeCells_iff (m : Mesh) (a b c : Id) :
+    c ∈ m.edgeCells a b ↔ ∃ cl, (c, cl) ∈ m.cells ∧ ((a, b) ∈ cyclicPairs cl.verts ∨ (b, a) ∈ cyclicPairs cl.verts) := by
+  unfold edgeCells
+  simp only [List.mem_map, List.mem_filter, Bool.or_eq_true, List.contains_eq_mem, decide_eq_true_eq]
+  constructor
+  · rintro ⟨⟨k, cl⟩, ⟨hm, hp⟩, rfl⟩; exact ⟨cl, hm, hp⟩
+  · rintro ⟨cl, hm, hp⟩; exact ⟨(c, cl), ⟨hm, hp⟩, rfl⟩
+
+/-- in a consistent mesh `own_cells` of a two-point interface lists exactly the cells along its mesh edge, each once -/
+theorem bigEdgeOwnCells_pair_perm (m : Mesh) (h : m.Consistent = true) (a b : Id) :
+    (m.bigEdgeOwnCells [a, b]).Perm (m.edgeCells a b) := by
+  obtain ⟨hk, _, _, _, hnd, _⟩ := (consistent_iff m).1 h
+  have hkeys : (m.cells.map (·.1)).Nodup := hk.2.2.2.2.2
+  apply (List.perm_ext_iff_of_nodup ?_ ?_).2
+  · intro c
+    rw [bigEdgeOwnCells_pair, mem_edgeCells_iff]
+    simp only [List.mem_filter, listInter, List.contains_eq_mem, decide_eq_true_eq]
+    constructor
+    · rintro ⟨_, hn⟩
+      unfold neighboursInCell cell? at hn
+      split at hn
+      · rename_i cl hcl
+        exact ⟨cl, alGet?_some_mem hcl, cyclicNeighbours_imp _ _ _ hn⟩
+      · simp at hn
+    · rintro ⟨cl, hm, hp⟩
+      have ha : a ∈ cl.verts := by
+        rcases hp with hp | hp
+        · exact mem_cyclicPairs_left _ _ _ hp
+        · exact mem_cyclicPairs_right _ _ _ hp
+      have hb : b ∈ cl.verts := by
+        rcases hp with hp | hp
+        · exact mem_cyclicPairs_right _ _ _ hp
+        · exact mem_cyclicPairs_left _ _ _ hp
+      refine ⟨⟨m.mem_ownCells_of_mem_verts h c cl hm a ha, m.mem_ownCells_of_mem_verts h c cl hm b hb⟩, ?_⟩
+      unfold neighboursInCell cell?
+      rw [alGet?_of_mem hkeys hm]
+      exact (cyclicNeighbours_iff _ (hnd (c, cl) hm) a b).2 hp
+  · rw [bigEdgeOwnCells_pair]
+    exact ((m.ownCells_nodup_of_consistent h a).filter _).filter _
+  · unfold edgeCells
+    exact (List.filter_sublist.map _).nodup hkeys
 end Mesh
 
 end Forsys
